@@ -122,6 +122,7 @@ type Engine struct {
 	globals   map[*ssa.Global]*Value
 	pkgInit   map[*ssa.Package]int // 0 none, 1 running, 2 done, 3 never (globals marked)
 	forceInit map[string]bool
+	pools     map[*Value][]Value // sync.Pool contents in recycling mode (verif.PoolReuse)
 	sharedGlobals map[*ssa.Global]*Value
 	sharedInit    map[*ssa.Package]int
 	mapNondet bool
@@ -185,6 +186,7 @@ func (e *Engine) resetPath(prefix []int64) {
 	e.funcs = map[string]bool{}
 	e.maxAlloc = 0
 	e.kv = map[string]Value{}
+	e.pools = nil
 	e.mutexes = map[*Value]int{}
 	e.sched = nil
 	e.timers = nil
